@@ -37,7 +37,8 @@ TraceInit == /\ InitWith(0) /\ l = 1 /\ bad = << >> /\ prog = << >> /\ ncp = 0 /
 Line == Trace[l]
 IsEv(e) == l <= Len(Trace) /\ Line.ev = e /\ l' = l + 1 /\ UNCHANGED bad
 
-Kinds == {"Peek", "Skip", "ReadByte", "ReadBinary", "Read", "Release", "Len", "Malloc", "WriteBinary", "Flush", "Write"}
+Kinds == {"Peek", "Skip", "ReadByte", "ReadBinary", "Read", "Release", "Len", "Malloc", "WriteBinary", "Flush", "Write",
+          "ReadFrom"}
 
 TraceCase == /\ IsEv("Case") /\ ~active
              /\ Line.eofAt >= 0
@@ -59,8 +60,9 @@ TraceSrc == /\ IsEv("SrcRead") /\ active
 
 \* bytes the peer received during the next operation: one run continuing the received prefix, nothing unwritten.
 \* A Write(b) hands b to the socket itself: its bytes arrive before the Op line that reports its return, so the
-\* Sink line in front of a Write op is WriteBegin(n) followed by SinkRecv.
-NextOpIsWrite == l + 1 <= Len(Trace) /\ Trace[l + 1].ev = "Op" /\ Trace[l + 1].k = "Write" /\ Trace[l + 1].n > 0
+\* Sink line in front of a Write op is WriteBegin(n) followed by SinkRecv.  The same holds for ReadFrom(r), which flushes
+\* whenever its buffer is full.
+NextOpIsWrite == l + 1 <= Len(Trace) /\ Trace[l + 1].ev = "Op" /\ Trace[l + 1].k \in {"Write", "ReadFrom"} /\ Trace[l + 1].n > 0
 TraceSink == /\ IsEv("Sink") /\ active
              /\ Line.nr = 1 /\ Line.f = flushed /\ Line.t = flushed + Line.n /\ Line.n > 0
              /\ IF NextOpIsWrite
